@@ -6,10 +6,16 @@ import P2sh.Spec.FilterSpec
 A model of `run_filters` with the filters abstracted by their meaning: filter `f` on packet
 number `np` (in state `σ`) yields a new state and whether the packet is selected
 (`Some true`), not (`Some false`), or fails (`None`: runtime error ⇒ the loop stops).
+As in the code, a packet is written the moment a filter selects it: what the filters before a
+failing one selected on that packet stays selected, the later filters and packets do not run,
+and the `end` filter still runs, with NP at the failing packet.
 
 * `selected_are_indices`, `end_np_is_count`, `selected_sorted` — the abstract loop;
 * `multiplicity` (+ `onPacket_answers`, `hitsPerPacket_numbers`, `hitsPerPacket_length`) — the output
   is, packet by packet, the packet's number once per filter that answered `true` (consecutive copies);
+* `failing_filter_keeps_earlier_selections` (+ `cleanRun`, `streamLoop_append_clean`) — the result
+  when the first failure is on the packet after a prefix: everything selected before, then the
+  failing packet's selections so far; NP stays there;
 * `np_sequence` — the loop with every filter recording `(NP, its position)`: recording changes
   nothing, and without failures the calls are packets in order × filters in source order, NP = index;
 * `stream_loop_refines` — the executable specification `FilterSpec.run` (the oracle of the
@@ -25,153 +31,54 @@ namespace P2sh.Props.C20
 structure Filter (σ : Type) where
   run : σ → Nat → σ × Option Bool      -- state, NP ↦ new state, selection
 
-/-- all filters on one packet, in source order; `none` = a filter failed (the stream loop stops) -/
-def onPacket {σ} (fs : List (Filter σ)) (st : σ) (np : Nat) : σ × Option (List Nat) :=
-  fs.foldl (fun (acc : σ × Option (List Nat)) f =>
-    match acc with
-    | (s, none) => (s, none)
-    | (s, some sel) =>
-      match f.run s np with
-      | (s', some true) => (s', some (sel ++ [np]))
-      | (s', some false) => (s', some sel)
-      | (s', none) => (s', none)) (st, some [])
+/-- one filter of the per-packet loop: state, the packet's selections so far (each one is a
+packet already written), and whether a filter has failed (then nothing more runs) -/
+def pstep {σ} (np : Nat) (acc : σ × List Nat × Bool) (f : Filter σ) : σ × List Nat × Bool :=
+  match acc with
+  | (s, sel, true) => (s, sel, true)
+  | (s, sel, false) =>
+    match f.run s np with
+    | (s', some true) => (s', sel ++ [np], false)
+    | (s', some false) => (s', sel, false)
+    | (s', none) => (s', sel, true)
+
+/-- all filters on one packet, in source order: the final state, the selections made (those made
+before a failing filter are kept: the packet has been written by then), and whether a filter
+failed (the stream loop stops) -/
+def onPacket {σ} (fs : List (Filter σ)) (st : σ) (np : Nat) : σ × List Nat × Bool :=
+  fs.foldl (pstep np) (st, [], false)
 
 /-- the `'out` loop of `run_filters`: packets are numbered from `count`; returns the final
-state, the selected packet numbers in output order, and the NP the `end` filter sees -/
+state, the selected packet numbers in output order, and the NP the `end` filter sees (the `end`
+filter runs after a failure too, with NP still at the failing packet) -/
 def streamLoop {σ} (fs : List (Filter σ)) : σ → Nat → List Unit → σ × List Nat × Nat
   | st, count, [] => (st, [], count - 1)
   | st, count, _ :: rest =>
     match onPacket fs st count with
-    | (st', some sel) =>
+    | (st', sel, false) =>
       let (st'', sel', n) := streamLoop fs st' (count + 1) rest
       (st'', sel ++ sel', n)
-    | (st', none) => (st', [], count)      -- a failing filter stops the loop; NP stays at this packet
+    | (st', sel, true) => (st', sel, count)   -- a failing filter stops the loop; NP stays at this packet
 
-/-- **NP is the 1-based index**: every selected number is the index of a packet of the stream -/
-theorem selected_are_indices {σ} (fs : List (Filter σ)) :
-    ∀ (pkts : List Unit) (st : σ) (count : Nat),
-      ∀ n ∈ (streamLoop fs st count pkts).2.1, count ≤ n ∧ n < count + pkts.length := by
-  intro pkts
-  induction pkts with
-  | nil => intro st count n h; simp [streamLoop] at h
-  | cons p rest ih =>
-    intro st count n h
-    simp only [streamLoop] at h
-    -- every number the filters select on this packet is `count`
-    have hsel : ∀ (fs' : List (Filter σ)) (acc : σ × Option (List Nat)),
-        (∀ l, acc.2 = some l → ∀ m ∈ l, m = count) →
-        ∀ l, (fs'.foldl (fun (acc : σ × Option (List Nat)) f =>
-          match acc with
-          | (s, none) => (s, none)
-          | (s, some sel) =>
-            match f.run s count with
-            | (s', some true) => (s', some (sel ++ [count]))
-            | (s', some false) => (s', some sel)
-            | (s', none) => (s', none)) acc).2 = some l → ∀ m ∈ l, m = count := by
-      intro fs'
-      induction fs' with
-      | nil => intro acc hacc l hl; exact hacc l hl
-      | cons f fs'' ih2 =>
-        intro acc hacc l hl
-        simp only [List.foldl] at hl
-        apply ih2 _ _ l hl
-        intro l' hl'
-        obtain ⟨s, o⟩ := acc
-        cases o with
-        | none => simp at hl'
-        | some sel =>
-          simp only at hl'
-          split at hl'
-          · simp only [Option.some.injEq] at hl'
-            subst hl'
-            intro m hm
-            simp only [List.mem_append, List.mem_singleton] at hm
-            rcases hm with hm | hm
-            · exact hacc sel rfl m hm
-            · exact hm
-          · simp only [Option.some.injEq] at hl'
-            subst hl'
-            exact hacc sel rfl
-          · simp at hl'
-    cases hop : onPacket fs st count with
-    | mk st' o =>
-      rw [hop] at h
-      cases o with
-      | none => simp at h
-      | some sel =>
-        simp only [List.mem_append] at h
-        rcases h with h | h
-        · have := hsel fs (st, some []) (by intro l hl; simp at hl; subst hl; simp) sel (by
-            have := hop; unfold onPacket at this; rw [this]) n h
-          subst this
-          simp
-        · have := ih st' (count + 1) n h
-          simp only [List.length_cons]
-          omega
+/-! ### the loop unfolded -/
 
-/-- **the end filter sees the number of packets read** when no filter fails -/
-theorem end_np_is_count {σ} (fs : List (Filter σ)) (hok : ∀ s np, ∃ s' b, (onPacket fs s np) = (s', some b)) :
-    ∀ (pkts : List Unit) (st : σ) (count : Nat),
-      (streamLoop fs st count pkts).2.2 = count + pkts.length - 1 := by
-  intro pkts
-  induction pkts with
-  | nil => intro st count; simp [streamLoop]
-  | cons p rest ih =>
-    intro st count
-    obtain ⟨s', b, h⟩ := hok st count
-    simp only [streamLoop, h, ih, List.length_cons]
-    omega
+theorem streamLoop_nil {σ} (fs : List (Filter σ)) (st : σ) (count : Nat) :
+    streamLoop fs st count [] = (st, [], count - 1) := rfl
 
-/-- **packets are written in input order** -/
-theorem selected_sorted {σ} (fs : List (Filter σ)) :
-    ∀ (pkts : List Unit) (st : σ) (count : Nat),
-      List.Pairwise (· ≤ ·) (streamLoop fs st count pkts).2.1 := by
-  intro pkts
-  induction pkts with
-  | nil => intro st count; simp [streamLoop]
-  | cons p rest ih =>
-    intro st count
-    simp only [streamLoop]
-    cases hop : onPacket fs st count with
-    | mk st' o =>
-      cases o with
-      | none => simp
-      | some sel =>
-        simp only
-        rw [List.pairwise_append]
-        refine ⟨?_, ih st' (count + 1), ?_⟩
-        · -- all entries of `sel` are `count`
-          have hall : ∀ m ∈ sel, m = count := by
-            intro m hm
-            have := selected_are_indices fs [()] st count m (by
-              simp only [streamLoop, hop]; simp [hm])
-            simp at this; omega
-          apply List.pairwise_of_forall_mem_list
-          intro a ha b hb
-          rw [hall a ha, hall b hb]
-          exact Nat.le_refl _
-        · intro a ha b hb
-          have h1 := selected_are_indices fs [()] st count a (by simp only [streamLoop, hop]; simp [ha])
-          have h2 := selected_are_indices fs rest st' (count + 1) b hb
-          simp at h1; omega
+theorem streamLoop_cons_ok {σ} (fs : List (Filter σ)) (st st' : σ) (count : Nat) (sel : List Nat)
+    (rest : List Unit) (u : Unit) (h : onPacket fs st count = (st', sel, false)) :
+    streamLoop fs st count (u :: rest) =
+      ((streamLoop fs st' (count + 1) rest).1, sel ++ (streamLoop fs st' (count + 1) rest).2.1,
+       (streamLoop fs st' (count + 1) rest).2.2) := by
+  simp only [streamLoop, h]
 
+theorem streamLoop_cons_fail {σ} (fs : List (Filter σ)) (st st' : σ) (count : Nat) (sel : List Nat)
+    (rest : List Unit) (u : Unit) (h : onPacket fs st count = (st', sel, true)) :
+    streamLoop fs st count (u :: rest) = (st', sel, count) := by
+  simp only [streamLoop, h]
 
-/-! ## the stream loop, unfolded; multiplicity; the call sequence -/
-
-def pstep {σ} (np : Nat) (acc : σ × Option (List Nat)) (f : Filter σ) : σ × Option (List Nat) :=
-  match acc with
-  | (s, none) => (s, none)
-  | (s, some sel) =>
-    match f.run s np with
-    | (s', some true) => (s', some (sel ++ [np]))
-    | (s', some false) => (s', some sel)
-    | (s', none) => (s', none)
-
-theorem onPacket_eq {σ} (fs : List (Filter σ)) (st : σ) (np : Nat) :
-    onPacket fs st np = fs.foldl (pstep np) (st, some []) := rfl
-
-theorem foldl_pstep_none {σ} (np : Nat) (fs : List (Filter σ)) (s : σ) :
-    fs.foldl (pstep np) (s, none) = (s, none) := by
+theorem foldl_pstep_failed {σ} (np : Nat) (fs : List (Filter σ)) (s : σ) (sel : List Nat) :
+    fs.foldl (pstep np) (s, sel, true) = (s, sel, true) := by
   induction fs with
   | nil => rfl
   | cons f fs ih => exact ih
@@ -187,9 +94,9 @@ def answers {σ} : List (Filter σ) → σ → Nat → List (Option Bool)
 
 theorem foldl_pstep_answers {σ} (np : Nat) :
     ∀ (fs : List (Filter σ)) (st : σ) (sel : List Nat),
-      (fs.foldl (pstep np) (st, some sel)).2 =
-        if none ∈ answers fs st np then none
-        else some (sel ++ List.replicate ((answers fs st np).count (some true)) np) := by
+      (fs.foldl (pstep np) (st, sel, false)).2 =
+        (sel ++ List.replicate ((answers fs st np).count (some true)) np,
+         decide (none ∈ answers fs st np)) := by
   intro fs
   induction fs with
   | nil => intro st sel; simp [answers]
@@ -200,41 +107,122 @@ theorem foldl_pstep_answers {σ} (np : Nat) :
     | mk s' r =>
       cases r with
       | none =>
-        have : pstep np (st, some sel) f = (s', none) := by simp only [pstep, hr]
-        rw [this, foldl_pstep_none]
+        have : pstep np (st, sel, false) f = (s', sel, true) := by simp only [pstep, hr]
+        rw [this, foldl_pstep_failed]
         simp [answers, hr]
       | some b =>
         cases b with
         | true =>
-          have : pstep np (st, some sel) f = (s', some (sel ++ [np])) := by simp only [pstep, hr]
+          have : pstep np (st, sel, false) f = (s', sel ++ [np], false) := by simp only [pstep, hr]
           rw [this, ih]
-          simp only [answers, hr, List.mem_cons, reduceCtorEq, false_or, List.count_cons_self]
-          split
-          · rfl
-          · simp [List.replicate_succ]
+          simp [answers, hr, List.replicate_succ]
         | false =>
-          have : pstep np (st, some sel) f = (s', some sel) := by simp only [pstep, hr]
+          have : pstep np (st, sel, false) f = (s', sel, false) := by simp only [pstep, hr]
           rw [this, ih]
           simp [answers, hr]
 
-/-- **multiplicity, one packet**: when no filter fails the packet is selected once per filter
-that answers `true` -/
+/-- **multiplicity, one packet**: the packet is selected once per filter that answered `true`
+before the first failure, if any -/
 theorem onPacket_answers {σ} (fs : List (Filter σ)) (st : σ) (np : Nat) :
     (onPacket fs st np).2 =
-      if none ∈ answers fs st np then none
-      else some (List.replicate ((answers fs st np).count (some true)) np) := by
-  rw [onPacket_eq, foldl_pstep_answers]
+      (List.replicate ((answers fs st np).count (some true)) np, decide (none ∈ answers fs st np)) := by
+  rw [onPacket, foldl_pstep_answers]
   simp
 
+theorem onPacket_sel_eq {σ} (fs : List (Filter σ)) (st : σ) (np : Nat) :
+    ∀ m ∈ (onPacket fs st np).2.1, m = np := by
+  intro m hm
+  rw [onPacket_answers] at hm
+  exact (List.mem_replicate.mp hm).2
 
-/-- per packet read without failure, in order: its number and how many filters answered `true` -/
+
+/-- **NP is the 1-based index**: every selected number is the index of a packet of the stream -/
+theorem selected_are_indices {σ} (fs : List (Filter σ)) :
+    ∀ (pkts : List Unit) (st : σ) (count : Nat),
+      ∀ n ∈ (streamLoop fs st count pkts).2.1, count ≤ n ∧ n < count + pkts.length := by
+  intro pkts
+  induction pkts with
+  | nil => intro st count n h; simp [streamLoop] at h
+  | cons p rest ih =>
+    intro st count n h
+    have hall := onPacket_sel_eq fs st count
+    cases hop : onPacket fs st count with
+    | mk st' r =>
+      obtain ⟨sel, failed⟩ := r
+      rw [hop] at hall
+      cases failed with
+      | true =>
+        rw [streamLoop_cons_fail _ _ _ _ _ _ _ hop] at h
+        have := hall n h
+        simp only [List.length_cons]; omega
+      | false =>
+        rw [streamLoop_cons_ok _ _ _ _ _ _ _ hop] at h
+        simp only [List.mem_append] at h
+        rcases h with h | h
+        · have := hall n h
+          simp only [List.length_cons]; omega
+        · have := ih st' (count + 1) n h
+          simp only [List.length_cons]; omega
+
+/-- **the end filter sees the number of packets read** when no filter fails -/
+theorem end_np_is_count {σ} (fs : List (Filter σ))
+    (hok : ∀ s np, ∃ s' sel, (onPacket fs s np) = (s', sel, false)) :
+    ∀ (pkts : List Unit) (st : σ) (count : Nat),
+      (streamLoop fs st count pkts).2.2 = count + pkts.length - 1 := by
+  intro pkts
+  induction pkts with
+  | nil => intro st count; simp [streamLoop]
+  | cons p rest ih =>
+    intro st count
+    obtain ⟨s', sel, h⟩ := hok st count
+    rw [streamLoop_cons_ok _ _ _ _ _ _ _ h]
+    simp only [ih, List.length_cons]
+    omega
+
+/-- **packets are written in input order** -/
+theorem selected_sorted {σ} (fs : List (Filter σ)) :
+    ∀ (pkts : List Unit) (st : σ) (count : Nat),
+      List.Pairwise (· ≤ ·) (streamLoop fs st count pkts).2.1 := by
+  intro pkts
+  induction pkts with
+  | nil => intro st count; simp [streamLoop]
+  | cons p rest ih =>
+    intro st count
+    have hall := onPacket_sel_eq fs st count
+    cases hop : onPacket fs st count with
+    | mk st' r =>
+      obtain ⟨sel, failed⟩ := r
+      rw [hop] at hall
+      have hsel : List.Pairwise (· ≤ ·) sel := by
+        apply List.pairwise_of_forall_mem_list
+        intro a ha b hb
+        rw [hall a ha, hall b hb]
+        exact Nat.le_refl _
+      cases failed with
+      | true =>
+        rw [streamLoop_cons_fail _ _ _ _ _ _ _ hop]
+        exact hsel
+      | false =>
+        rw [streamLoop_cons_ok _ _ _ _ _ _ _ hop]
+        simp only
+        rw [List.pairwise_append]
+        refine ⟨hsel, ih st' (count + 1), ?_⟩
+        intro a ha b hb
+        have h1 := hall a ha
+        have h2 := selected_are_indices fs rest st' (count + 1) b hb
+        omega
+
+/-! ### multiplicity -/
+
+/-- per packet the loop reached, in order: its number and how many filters answered `true` on it
+(before the first failure, for the last one) -/
 def hitsPerPacket {σ} (fs : List (Filter σ)) : σ → Nat → List Unit → List (Nat × Nat)
   | _, _, [] => []
   | st, count, _ :: rest =>
     match onPacket fs st count with
-    | (st', some _) =>
+    | (st', _, false) =>
       (count, (answers fs st count).count (some true)) :: hitsPerPacket fs st' (count + 1) rest
-    | (_, none) => []
+    | (_, _, true) => [(count, (answers fs st count).count (some true))]
 
 /-- **multiplicity**: the output is, packet by packet in input order, the packet's number
 repeated once per filter that answered `true` on it — so the copies of one packet are consecutive -/
@@ -249,16 +237,17 @@ theorem multiplicity {σ} (fs : List (Filter σ)) :
     intro st count
     have ha := onPacket_answers fs st count
     cases hop : onPacket fs st count with
-    | mk st' o =>
-      cases o with
-      | none => simp only [streamLoop, hitsPerPacket, hop]; rfl
-      | some sel =>
-        rw [hop] at ha
-        simp only at ha
-        split at ha
-        · cases ha
-        · simp only [Option.some.injEq] at ha
-          simp only [streamLoop, hitsPerPacket, hop, List.flatMap_cons, ih, ha]
+    | mk st' r =>
+      obtain ⟨sel, failed⟩ := r
+      rw [hop] at ha
+      simp only [Prod.mk.injEq] at ha
+      cases failed with
+      | true =>
+        rw [streamLoop_cons_fail _ _ _ _ _ _ _ hop]
+        simp only [hitsPerPacket, hop, List.flatMap_cons, List.flatMap_nil, List.append_nil, ha.1]
+      | false =>
+        rw [streamLoop_cons_ok _ _ _ _ _ _ _ hop]
+        simp only [hitsPerPacket, hop, List.flatMap_cons, ih, ha.1]
 
 /-- the packets of `hitsPerPacket` are numbered consecutively from `count` -/
 theorem hitsPerPacket_numbers {σ} (fs : List (Filter σ)) :
@@ -271,15 +260,16 @@ theorem hitsPerPacket_numbers {σ} (fs : List (Filter σ)) :
   | cons u rest ih =>
     intro st count
     cases hop : onPacket fs st count with
-    | mk st' o =>
-      cases o with
-      | none => simp only [hitsPerPacket, hop]; rfl
-      | some sel =>
+    | mk st' r =>
+      obtain ⟨sel, failed⟩ := r
+      cases failed with
+      | true => simp only [hitsPerPacket, hop]; rfl
+      | false =>
         simp only [hitsPerPacket, hop, List.map_cons, List.length_cons, ih, List.range'_succ]
 
 /-- … and all packets are there when no filter fails -/
 theorem hitsPerPacket_length {σ} (fs : List (Filter σ))
-    (hok : ∀ s np, ∃ s' b, (onPacket fs s np) = (s', some b)) :
+    (hok : ∀ s np, ∃ s' sel, (onPacket fs s np) = (s', sel, false)) :
     ∀ (pkts : List Unit) (st : σ) (count : Nat),
       (hitsPerPacket fs st count pkts).length = pkts.length := by
   intro pkts
@@ -287,11 +277,66 @@ theorem hitsPerPacket_length {σ} (fs : List (Filter σ))
   | nil => intro st count; rfl
   | cons u rest ih =>
     intro st count
-    obtain ⟨s', b, h⟩ := hok st count
+    obtain ⟨s', sel, h⟩ := hok st count
     simp only [hitsPerPacket, h, List.length_cons, ih]
 
+/-! ### a failing filter -/
 
-/-! ## which filter runs with which NP: the loop with a call log -/
+/-- the state after `pkts` when no filter fails on them (`none` otherwise) -/
+def cleanRun {σ} (fs : List (Filter σ)) : σ → Nat → List Unit → Option σ
+  | st, _, [] => some st
+  | st, count, _ :: rest =>
+    match onPacket fs st count with
+    | (st', _, false) => cleanRun fs st' (count + 1) rest
+    | (_, _, true) => none
+
+/-- the loop over a prefix on which nothing fails, then the rest -/
+theorem streamLoop_append_clean {σ} (fs : List (Filter σ)) (post : List Unit) :
+    ∀ (pre : List Unit) (st : σ) (count : Nat) (s1 : σ), cleanRun fs st count pre = some s1 →
+      streamLoop fs st count (pre ++ post) =
+        ((streamLoop fs s1 (count + pre.length) post).1,
+         (streamLoop fs st count pre).2.1 ++ (streamLoop fs s1 (count + pre.length) post).2.1,
+         (streamLoop fs s1 (count + pre.length) post).2.2) := by
+  intro pre
+  induction pre with
+  | nil =>
+    intro st count s1 h
+    simp only [cleanRun, Option.some.injEq] at h
+    subst h
+    simp [streamLoop_nil]
+  | cons u pre ih =>
+    intro st count s1 h
+    cases hop : onPacket fs st count with
+    | mk st' r =>
+      obtain ⟨sel, failed⟩ := r
+      cases failed with
+      | true => simp [cleanRun, hop] at h
+      | false =>
+        simp only [cleanRun, hop] at h
+        rw [List.cons_append, streamLoop_cons_ok _ _ _ _ _ _ _ hop, streamLoop_cons_ok _ _ _ _ _ _ _ hop,
+          ih st' (count + 1) s1 h]
+        simp only [List.length_cons, List.append_assoc]
+        rw [show count + 1 + pre.length = count + (pre.length + 1) by omega]
+
+/-- **failing_filter_keeps_earlier_selections**: when the first failure happens on the packet after
+`pre`, the result is everything selected on the earlier packets, then what the filters before the
+failing one selected on that packet (it has been written by then); the loop stops there, and NP
+stays at that packet for the `end` filter -/
+theorem failing_filter_keeps_earlier_selections {σ} (fs : List (Filter σ)) (pre post : List Unit)
+    (u : Unit) (st s1 s2 : σ) (count : Nat) (sel : List Nat)
+    (hclean : cleanRun fs st count pre = some s1)
+    (hfail : onPacket fs s1 (count + pre.length) = (s2, sel, true)) :
+    streamLoop fs st count (pre ++ u :: post) =
+      (s2, (streamLoop fs st count pre).2.1 ++ sel, count + pre.length) ∧
+    sel = List.replicate ((answers fs s1 (count + pre.length)).count (some true)) (count + pre.length) := by
+  constructor
+  · rw [streamLoop_append_clean fs _ pre st count s1 hclean, streamLoop_cons_fail _ _ _ _ _ _ _ hfail]
+  · have := onPacket_answers fs s1 (count + pre.length)
+    rw [hfail] at this
+    exact (Prod.mk.inj this).1
+
+
+/-! ### which filter runs with which NP: the loop with a call log -/
 
 /-- the filters numbered from `j`, each recording `(NP, its number)` when it is run -/
 def logged {σ} (j : Nat) (f : Filter σ) : Filter (σ × List (Nat × Nat)) :=
@@ -304,11 +349,11 @@ def instr {σ} : Nat → List (Filter σ) → List (Filter (σ × List (Nat × N
 theorem foldl_instr {σ} (np : Nat) :
     ∀ (fs : List (Filter σ)) (j : Nat) (st : σ) (log : List (Nat × Nat)) (sel : List Nat),
       ∃ m, m ≤ fs.length ∧
-        (instr j fs).foldl (pstep np) ((st, log), some sel) =
-          (((fs.foldl (pstep np) (st, some sel)).1,
+        (instr j fs).foldl (pstep np) ((st, log), sel, false) =
+          (((fs.foldl (pstep np) (st, sel, false)).1,
             log ++ (List.range' j m).map (fun k => (np, k))),
-           (fs.foldl (pstep np) (st, some sel)).2) ∧
-        ((fs.foldl (pstep np) (st, some sel)).2 ≠ none → m = fs.length) := by
+           (fs.foldl (pstep np) (st, sel, false)).2) ∧
+        ((fs.foldl (pstep np) (st, sel, false)).2.2 = false → m = fs.length) := by
   intro fs
   induction fs with
   | nil => intro j st log sel; exact ⟨0, Nat.le_refl _, by simp [instr], fun _ => rfl⟩
@@ -318,22 +363,21 @@ theorem foldl_instr {σ} (np : Nat) :
     | mk s' r =>
       cases r with
       | none =>
+        have h1 : pstep np (st, sel, false) f = (s', sel, true) := by simp only [pstep, hr]
+        have h2 : pstep np ((st, log), sel, false) (logged j f) =
+            ((s', log ++ [(np, j)]), sel, true) := by simp [logged, pstep, hr]
         refine ⟨1, by simp, ?_, ?_⟩
-        · have h1 : pstep np (st, some sel) f = (s', none) := by simp only [pstep, hr]
-          have h2 : pstep np ((st, log), some sel) (logged j f) =
-              ((s', log ++ [(np, j)]), none) := by simp [logged, pstep, hr]
-          simp only [instr, List.foldl_cons]
-          rw [h1, h2, foldl_pstep_none, foldl_pstep_none]
+        · simp only [instr, List.foldl_cons]
+          rw [h1, h2, foldl_pstep_failed, foldl_pstep_failed]
           simp
         · intro hne
-          have h1 : pstep np (st, some sel) f = (s', none) := by simp only [pstep, hr]
-          rw [List.foldl_cons, h1, foldl_pstep_none] at hne
-          exact absurd rfl hne
+          rw [List.foldl_cons, h1, foldl_pstep_failed] at hne
+          cases hne
       | some b =>
-        have h1 : pstep np (st, some sel) f = (s', some (if b then sel ++ [np] else sel)) := by
+        have h1 : pstep np (st, sel, false) f = (s', (if b then sel ++ [np] else sel), false) := by
           cases b <;> simp only [pstep, hr] <;> rfl
-        have h2 : pstep np ((st, log), some sel) (logged j f) =
-            ((s', log ++ [(np, j)]), some (if b then sel ++ [np] else sel)) := by
+        have h2 : pstep np ((st, log), sel, false) (logged j f) =
+            ((s', log ++ [(np, j)]), (if b then sel ++ [np] else sel), false) := by
           cases b <;> simp [logged, pstep, hr]
         obtain ⟨m, hm, he, hfull⟩ := ih (j + 1) s' (log ++ [(np, j)]) (if b then sel ++ [np] else sel)
         refine ⟨m + 1, by simp; omega, ?_, ?_⟩
@@ -344,19 +388,6 @@ theorem foldl_instr {σ} (np : Nat) :
           rw [List.foldl_cons, h1] at hne
           simp [hfull hne]
 
-
-theorem streamLoop_cons_ok {σ} (fs : List (Filter σ)) (st st' : σ) (count : Nat) (sel : List Nat)
-    (rest : List Unit) (u : Unit) (h : onPacket fs st count = (st', some sel)) :
-    streamLoop fs st count (u :: rest) =
-      ((streamLoop fs st' (count + 1) rest).1, sel ++ (streamLoop fs st' (count + 1) rest).2.1,
-       (streamLoop fs st' (count + 1) rest).2.2) := by
-  simp only [streamLoop, h]
-
-theorem streamLoop_cons_fail {σ} (fs : List (Filter σ)) (st st' : σ) (count : Nat)
-    (rest : List Unit) (u : Unit) (h : onPacket fs st count = (st', none)) :
-    streamLoop fs st count (u :: rest) = (st', [], count) := by
-  simp only [streamLoop, h]
-
 /-- **np_sequence**: recording the calls changes nothing (first part), and when no filter fails
 the calls are: for each packet `i` in order, filters `0 … n-1` in source order, each with NP = `i` -/
 theorem np_sequence {σ} (fs : List (Filter σ)) :
@@ -365,7 +396,7 @@ theorem np_sequence {σ} (fs : List (Filter σ)) :
         streamLoop (instr 0 fs) (st, log) count pkts =
           (((streamLoop fs st count pkts).1, log ++ calls),
            (streamLoop fs st count pkts).2.1, (streamLoop fs st count pkts).2.2) ∧
-        ((∀ s np, ∃ s' b, (onPacket fs s np) = (s', some b)) →
+        ((∀ s np, ∃ s' sel, (onPacket fs s np) = (s', sel, false)) →
           calls = (List.range' count pkts.length).flatMap
             (fun i => (List.range' 0 fs.length).map (fun j => (i, j)))) := by
   intro pkts
@@ -374,19 +405,21 @@ theorem np_sequence {σ} (fs : List (Filter σ)) :
   | cons u rest ih =>
     intro st log count
     obtain ⟨m, hm, he, hfull⟩ := foldl_instr count fs 0 st log []
-    simp only [← onPacket_eq] at he hfull
+    change onPacket (instr 0 fs) (st, log) count = ((((onPacket fs st count).1), _), (onPacket fs st count).2) at he
+    change (onPacket fs st count).2.2 = false → _ at hfull
     cases hop : onPacket fs st count with
-    | mk st' o =>
+    | mk st' r =>
+      obtain ⟨sel, failed⟩ := r
       rw [hop] at he hfull
-      cases o with
-      | none =>
+      cases failed with
+      | true =>
         refine ⟨(List.range' 0 m).map (fun k => (count, k)), ?_, ?_⟩
-        · rw [streamLoop_cons_fail _ _ _ _ _ _ he, streamLoop_cons_fail _ _ _ _ _ _ hop]
+        · rw [streamLoop_cons_fail _ _ _ _ _ _ _ he, streamLoop_cons_fail _ _ _ _ _ _ _ hop]
         · intro hok
-          obtain ⟨s', b, h⟩ := hok st count
+          obtain ⟨s', sel', h⟩ := hok st count
           rw [h] at hop; cases hop
-      | some sel =>
-        have hmf := hfull (by simp)
+      | false =>
+        have hmf := hfull rfl
         subst hmf
         obtain ⟨calls, hc, hcf⟩ := ih st' (log ++ (List.range' 0 fs.length).map (fun k => (count, k))) (count + 1)
         refine ⟨(List.range' 0 fs.length).map (fun k => (count, k)) ++ calls, ?_, ?_⟩
@@ -400,9 +433,6 @@ theorem np_sequence {σ} (fs : List (Filter σ)) :
 /-! ## the specification is the stream loop -/
 open P2sh P2sh.Ref P2sh.FilterSpec
 
-
-theorem streamLoop_nil {σ} (fs : List (Filter σ)) (st : σ) (count : Nat) :
-    streamLoop fs st count [] = (st, [], count - 1) := rfl
 
 /-! ## the specification's filters as filters of the stream loop -/
 
@@ -448,8 +478,8 @@ theorem each_fold (env : Env) (idx : Nat) (input : List Pkt) :
     ∀ (fs : List (FPat × Option Block)) (st : St) (sel acc : List Nat) (st' : St) (sel' : List Nat),
       FilterSpec.run.loop.each env idx fs st sel = some (st', sel') →
       ∃ new, sel' = sel ++ new ∧
-        (fs.map (filterOf env)).foldl (pstep idx) ((st, input), some acc)
-          = ((st', input), some (acc ++ new)) := by
+        (fs.map (filterOf env)).foldl (pstep idx) ((st, input), acc, false)
+          = ((st', input), acc ++ new, false) := by
   intro fs
   induction fs with
   | nil =>
@@ -464,8 +494,8 @@ theorem each_fold (env : Env) (idx : Nat) (input : List Pkt) :
     cases hr : runFilter env st pat act with
     | mk r st1 =>
       rw [hr] at h
-      have hstep : ∀ b, r = some b → pstep idx ((st, input), some acc) (filterOf env (pat, act)) =
-          ((st1, input), some (if b then acc ++ [idx] else acc)) := by
+      have hstep : ∀ b, r = some b → pstep idx ((st, input), acc, false) (filterOf env (pat, act)) =
+          ((st1, input), (if b then acc ++ [idx] else acc), false) := by
         intro b hb
         subst hb
         simp only [pstep, filterOf, hr]
@@ -492,12 +522,12 @@ theorem onPacket_spec (env : Env) (fs : List (FPat × Option Block)) (idx : Nat)
     (h : FilterSpec.run.loop.each env idx fs (setVars st (.int (Int64.ofNat idx)) (some pk)) sel
       = some (st', sel')) :
     ∃ new, sel' = sel ++ new ∧
-      onPacket (prep :: fs.map (filterOf env)) (st, pk :: rest) idx = ((st', rest), some new) := by
+      onPacket (prep :: fs.map (filterOf env)) (st, pk :: rest) idx = ((st', rest), new, false) := by
   obtain ⟨new, h1, h2⟩ := each_fold env idx rest fs _ sel [] st' sel' h
   refine ⟨new, h1, ?_⟩
-  rw [onPacket_eq, List.foldl_cons]
-  have : pstep idx ((st, pk :: rest), some []) prep =
-      ((setVars st (.int (Int64.ofNat idx)) (some pk), rest), some []) := rfl
+  rw [onPacket, List.foldl_cons]
+  have : pstep idx ((st, pk :: rest), [], false) prep =
+      ((setVars st (.int (Int64.ofNat idx)) (some pk), rest), [], false) := rfl
   rw [this, h2]
   simp
 
@@ -715,9 +745,18 @@ example : hitsPerPacket [always, second] 0 1 [(), (), ()] = [(1, 1), (2, 2), (3,
 -- the call sequence: (NP, filter) in packet order, then source order
 example : (streamLoop (instr 0 [always, second]) (0, []) 1 [(), (), ()]).1.2
     = [(1, 0), (1, 1), (2, 0), (2, 1), (3, 0), (3, 1)] := by decide
--- a failing filter stops the stream: packet 3's filters after the failure do not run (the model
--- also drops what packet 3's earlier filters selected; the specification is `unc` on failures)
-example : streamLoop [always, failAt3, second] 0 1 [(), (), (), ()] = (8, [1, 2, 2], 3) := by decide
+-- a failing filter stops the stream: packet 3 was selected by `always` before `failAt3` failed on
+-- it and stays selected (it has been written); `second` does not run on it; packet 4 is not read;
+-- `end` would see NP = 3
+example : streamLoop [always, failAt3, second] 0 1 [(), (), (), ()] = (8, [1, 2, 2, 3], 3) := by decide
+example : onPacket [always, failAt3, second] 6 3 = (8, [3], true) := by decide
+example : cleanRun [always, failAt3, second] 0 1 [(), ()] = some 6 := by decide
+example : hitsPerPacket [always, failAt3, second] 0 1 [(), (), (), ()] = [(1, 1), (2, 2), (3, 1)] := by decide
+-- … as `failing_filter_keeps_earlier_selections` says (pre = 2 packets, failure on the third)
+example : streamLoop [always, failAt3, second] 0 1 ([(), ()] ++ () :: [()]) =
+    (8, (streamLoop [always, failAt3, second] 0 1 [(), ()]).2.1 ++ [3], 1 + 2) :=
+  (failing_filter_keeps_earlier_selections [always, failAt3, second] [(), ()] [()] () 0 6 8 1 [3]
+    (by decide) (by decide)).1
 example : (streamLoop (instr 0 [always, failAt3, second]) (0, []) 1 [(), (), (), ()]).1.2
     = [(1, 0), (1, 1), (1, 2), (2, 0), (2, 1), (2, 2), (3, 0), (3, 1)] := by decide
 
